@@ -1,4 +1,4 @@
-import RTV.Lemmas.Timex
+import RTV.Lemmas.TimexEval
 /-!
 # C15 — TIMEX resolution and constraint solving only return correct, valid values
 
@@ -356,5 +356,159 @@ theorem evaluate_regressions :
       [[40, 50, 48, 49, 57, 45, 48, 49, 45, 48, 49, 44, 120, 44, 80, 51, 89, 41]] =
       .ok [[50, 48, 50, 48, 45, 48, 50, 45, 50, 57]] := by
   decide
+
+/-! ## `TimexRangeResolver.evaluate`: weekday candidates against date-range constraints -/
+
+/-- the constraints are pure date ranges (years, months, `(start,end,PnD|W|M|Y)`): each has type `daterange`, none
+has a time or time-range type, and `daterange_from_timex` gives `ranges` -/
+structure DateOnly (cs : List Str) (ranges : List DateRange) : Prop where
+  ne : cs ≠ []
+  ty : ∀ t ∈ cs.map (parse genCfg), (infer t).daterange = true ∧ (infer t).time = false ∧ (infer t).timerange = false
+  rng : (cs.map (parse genCfg)).mapM daterangeFromTimex = .ok ranges
+
+example : DateOnly [[50, 48, 50, 48]] [⟨(⟨2020, 1, 1⟩ : Date).ord, (⟨2021, 1, 1⟩ : Date).ord⟩] :=
+  ⟨by simp, by decide, by decide⟩
+
+/-- with pure date-range constraints `evaluate` of a weekday candidate is its date-range stage -/
+theorem evaluate_weekday_eq (w : Fin 7) (cs : List Str) (ranges : List DateRange) (h : DateOnly cs ranges)
+    (fuel : Nat) :
+    evaluate genCfg (fuel + 1) [weekdayStr (w.val + 1)] cs =
+      resolveByDateRangeConstraints genCfg (fuel + 1) [weekdayStr (w.val + 1)] (cs.map (parse genCfg)) := by
+  have hp := parse_weekday ⟨w.val + 1, by omega⟩
+  simp only at hp
+  have hd : resolveDurations genCfg [weekdayStr (w.val + 1)] (cs.map (parse genCfg)) = .ok [weekdayStr (w.val + 1)] := by
+    simp [resolveDurations, List.foldlM, hp, infer, isDuration, bind, Except.bind, pure, Except.pure]
+  unfold evaluate
+  simp only [hd, bind, Except.bind]
+  cases hb : resolveByDateRangeConstraints genCfg (fuel + 1) [weekdayStr (w.val + 1)] (cs.map (parse genCfg)) with
+  | error e => rfl
+  | ok b =>
+    simp only
+    rw [resolveByTimeConstraints_none genCfg b _ (fun t ht => (h.ty t ht).2.1)]
+    simp only
+    rw [resolveByTimerangeConstraints_none genCfg fuel b _ (fun t ht => (h.ty t ht).2.2)]
+
+/-- C15 **evaluate_sound** (weekday candidate, any number of pure date-range constraints): every TIMEX string that
+`evaluate(['XXXX-WXX-w'], constraints)` returns is the ISO text `YYYY-MM-DD` of a day `o` (so it is definite) that
+falls on the asked weekday (an instance of the candidate) and lies inside at least one **supplied** date range —
+whatever `is_overlapping` decides, because `collapse_overlapping` only intersects. -/
+theorem evaluate_sound_weekday (w : Fin 7) (cs : List Str) (ranges : List DateRange) (h : DateOnly cs ranges)
+    (fuel : Nat) (out : List Str) (hout : evaluate genCfg (fuel + 1) [weekdayStr (w.val + 1)] cs = .ok out) :
+    ∀ s ∈ out, ∃ o, ∃ r0 ∈ ranges, r0.s ≤ o ∧ o < r0.e ∧ isoWeekdayOrd o = w.val + 1 ∧
+      (Date.ofOrd o).valid = true ∧ s = isoDateStr (Date.ofOrd o) := by
+  rw [evaluate_weekday_eq w cs ranges h fuel] at hout
+  have hp := parse_weekday ⟨w.val + 1, by omega⟩
+  simp only at hp
+  have h1 : ((cs.map (parse genCfg)).filter fun t => (infer t).daterange).mapM daterangeFromTimex = .ok ranges := by
+    rw [filter_all _ _ (fun t ht => (h.ty t ht).1), h.rng]
+  have hr : ranges ≠ [] := mapM_ne_nil _ _ _ h.rng (by simpa using h.ne)
+  have hb : ∀ r ∈ ranges, 1 ≤ r.s ∧ r.s ≤ maxOrd ∧ 1 ≤ r.e ∧ r.e ≤ maxOrd := by
+    intro r hr
+    obtain ⟨t, _, ht⟩ := (mapM_ok_mem _ _ _ h.rng r).mp hr
+    exact daterangeFromTimex_bounds t r ht
+  -- collapse returned (the call did)
+  cases hc : collapseDates (fuel + 1) ranges with
+  | error e =>
+    unfold resolveByDateRangeConstraints at hout
+    simp [h1, hc, bind, Except.bind] at hout
+  | ok collapsed =>
+    have hne := collapseDates_ne_nil _ _ _ hc hr
+    have hcov := collapseDates_sound (fuel + 1) ranges collapsed hc
+    intro s hs
+    obtain ⟨c, hcm, k, hk, x, hx, hsx⟩ := (dateStage_mem genCfg (fuel + 1) _ _ out ranges collapsed h1 hc hne hout s).mp hs
+    simp only [List.mem_singleton] at hcm
+    subst hcm
+    rw [hp] at hx
+    -- a collapsed range may be empty or reversed, but each of its days lies in a supplied range
+    by_cases hks : 1 ≤ k.s ∧ k.e ≤ maxOrd + 1
+    · obtain ⟨o, ho1, ho2, ho3, rfl⟩ := (resolveWeekday_mem _ k x hks.1 hks.2 hx s).mp hsx
+      obtain ⟨r0, hr0, hr1, hr2⟩ := hcov k hk o ho1 ho2
+      have := hb r0 hr0
+      refine ⟨o, r0, hr0, hr1, hr2, ?_, (ord_ofOrd o (by omega) (by omega)).2, rfl⟩
+      unfold isoWeekdayOrd; unfold weekdayOrd at ho3; push_cast at ho3; omega
+    · -- bounds of a collapsed range: it is a max of starts / min of ends of supplied ranges
+      exfalso
+      apply hks
+      have hP : ∀ r ∈ collapsed, 1 ≤ r.s ∧ r.e ≤ maxOrd + 1 := by
+        unfold collapseDates at hc
+        cases hl : collapseLoop DateRange.isOverlapping DateRange.collapseOverlapping (fuel + 1) ranges with
+        | none => simp [hl] at hc
+        | some l =>
+          simp only [hl, pure, Except.pure] at hc
+          cases hc
+          intro r hr'
+          rw [mem_sortBy] at hr'
+          refine collapseLoop_inv _ _ (fun r => 1 ≤ r.s ∧ r.e ≤ maxOrd + 1) ?_ _ _ _ hl ?_ r hr'
+          · intro a b ha hb'
+            simp [DateRange.collapseOverlapping]; omega
+          · intro r0 hr0; have := hb r0 hr0; omega
+      exact hP k hk
+
+/-- C15 **evaluate_complete_weekday** — a single pure date-range constraint `[s, e)` and a weekday candidate: the
+result holds the ISO text of **every** day of the range that falls on that weekday (and, by `evaluate_sound_weekday`,
+nothing else). -/
+theorem evaluate_complete_weekday (w : Fin 7) (c : Str) (r : DateRange) (h : DateOnly [c] [r]) (fuel : Nat)
+    (out : List Str) (hout : evaluate genCfg (fuel + 1) [weekdayStr (w.val + 1)] [c] = .ok out) :
+    ∀ o, r.s ≤ o → o < r.e → isoWeekdayOrd o = w.val + 1 → isoDateStr (Date.ofOrd o) ∈ out := by
+  rw [evaluate_weekday_eq w [c] [r] h fuel] at hout
+  have hp := parse_weekday ⟨w.val + 1, by omega⟩
+  simp only at hp
+  have h1 : (([c].map (parse genCfg)).filter fun t => (infer t).daterange).mapM daterangeFromTimex = .ok [r] := by
+    rw [filter_all _ _ (fun t ht => (h.ty t ht).1), h.rng]
+  have hc : collapseDates (fuel + 1) [r] = .ok [r] := by
+    simp [collapseDates, collapseLoop, innerCollapse, sortBy, insertBy, pure, Except.pure]
+  have hb : 1 ≤ r.s ∧ r.s ≤ maxOrd ∧ 1 ≤ r.e ∧ r.e ≤ maxOrd := by
+    obtain ⟨t, _, ht⟩ := (mapM_ok_mem _ _ _ h.rng r).mp (by simp)
+    exact daterangeFromTimex_bounds t r ht
+  intro o ho1 ho2 ho3
+  -- the candidate's resolution against the range succeeded, because the whole call did
+  cases hx : resolveDateAgainstConstraint { dayOfWeek := some (Num.int ((w.val + 1 : Nat) : Int)) } r with
+  | error e =>
+    exfalso
+    unfold resolveByDateRangeConstraints at hout
+    rw [h1] at hout
+    simp only [bind, Except.bind, hc, List.isEmpty_cons, Bool.false_eq_true, if_false, List.foldlM, hp, hx] at hout
+    cases hout
+  | ok x =>
+    refine (dateStage_mem genCfg (fuel + 1) _ _ out [r] [r] h1 hc rfl hout _).mpr
+      ⟨weekdayStr (w.val + 1), by simp, r, by simp, x, by rw [hp]; exact hx, ?_⟩
+    refine (resolveWeekday_mem _ r x hb.1 (by omega) hx _).mpr ⟨o, ho1, ho2, ?_, rfl⟩
+    unfold isoWeekdayOrd at ho3; unfold weekdayOrd; push_cast; omega
+
+example : isoWeekdayOrd (⟨2020, 1, 1⟩ : Date).ord = 3 := by decide
+
+/-! ### stage-wise soundness for the other candidate families (proved in `RTV/Lemmas/TimexEval.lean`)
+
+What remains open for a single end-to-end `evaluate_sound` over all candidate families: the composition through
+the re-parsing of the intermediate TIMEX strings between the stages (month-day and time-bearing candidates pass
+through `Timex(...)` again in the time and time-range stages). The stages themselves are sound: -/
+
+/-- `collapse` on date ranges returns only ranges whose days all lie in a supplied range -/
+theorem collapse_sound_dates (fuel : Nat) (rs out : List DateRange) (h : collapseDates fuel rs = .ok out) :
+    ∀ r ∈ out, CoveredBy rs r := collapseDates_sound fuel rs out h
+
+/-- `collapse` on time ranges returns only ranges whose instants all lie in a supplied range -/
+theorem collapse_sound_times (fuel : Nat) (rs out : List TimeRange) (h : collapseTimes fuel rs = .ok out) :
+    ∀ r ∈ out, CoveredByT rs r := collapseTimes_sound fuel rs out h
+
+/-- `dates_matching_day(day, s, e)` = exactly the days of `[s, e)` on that weekday -/
+theorem dates_matching_day_spec (day : Int) (s e : Nat) (l : List Nat) (h : datesMatchingDay day s e = .ok l) (o : Nat) :
+    o ∈ l ↔ s ≤ o ∧ o < e ∧ ((weekdayOrd o : Nat) : Int) = day := datesMatchingDay_spec day s e l h o
+
+/-- month-day candidates (`XXXX-MM-DD`, with or without a time): every result of `resolve_date_against_constraint`
+is the candidate with a year filled in — same month, day and time (an instance of the candidate, definite) — and that
+calendar date lies inside the range -/
+theorem evaluate_monthday_stage_sound (t : Timex) (c : DateRange) (out : List Str)
+    (hmd : andChainNotNone [t.month, t.dayOfMonth] = true) (h : resolveDateAgainstConstraint t c = .ok out) :
+    ∀ s ∈ out, ∃ (yy : Nat) (d : Date), dateFromTimex { t with year := some (.int yy) } = .ok d ∧
+      c.s ≤ d.ord ∧ d.ord < c.e ∧ formatT { t with year := some (.int yy) } = .ok s :=
+  resolveMonthDay_sound t c out hmd h
+
+/-- time-range stage for a candidate with a time: every result is the candidate's own TIMEX and its time of day lies
+inside one of the collapsed time ranges (each of which lies inside supplied ones by `collapse_sound_times`) -/
+theorem evaluate_timerange_stage_sound (t : Timex) (ks : List TimeRange) (out : List Str)
+    (h : resolveTime t ks = .ok out) :
+    ∀ s ∈ out, ∃ k ∈ ks, ∃ tm ms, t.time = some tm ∧ msOf tm.hour tm.minute tm.second = .ok ms ∧
+      k.s ≤ ms ∧ ms < k.e ∧ formatT t = .ok s := resolveTime_sound t ks out h
 
 end RTV.Timex
